@@ -709,6 +709,10 @@ def gen_c12(ctx):
     for i in range(N):
         c = gssvx_case(rng, pv[i], ctx.quick, kind='svd' if rng.random() < 0.75 else 'mixed')
         c['u'] = rng.choice([1.0, 0.5, 0.1]); c['nrhs'] = rng.choice([0, 1, 1])
+        if c['fam'] == 'svd' and rng.random() < 0.12:
+            # singular to working precision (no exact zero pivot): the driver has to say info = n+1 - also without right-hand sides -
+            # and still deliver X, ferr, berr; only the info/rcond relation and the premise-free checks apply
+            c['cond'] = '%.3g' % (10 ** ({'d': 16.5, 'z': 16.5, 's': 8.0, 'c': 8.0}[pv[i]] + 5 * rng.random())); c['n'] = max(c['n'], 3)
         if c['nrhs'] == 0: c.pop('factored', None)
         elif rng.random() < 0.5: c['factored'] = 1; c.setdefault('trans2', rng.choice([0, 1, 2]))      # rcond and pivot growth are outputs of a FACTORED call too
         out.append(({'variant': 'plain', 'prec': pv[i]}, c))
@@ -722,12 +726,12 @@ def gen_c12(ctx):
         out.append(({'variant': 'plain', 'prec': rng.choice(PRECS)}, c))
     return out
 
-PROPS['C12'] = dict(gen=gen_c12, relevant=('C12|',), counters=X_COUNTERS + ('gscon_judged',), nontrivial=lambda r: bool((r.get('result') or {}).get('rcond_judged')) or bool((r.get('result') or {}).get('gscon_judged')), batch=25, coverage_extra=cov_equed,
-                    rule='expert driver on matrices with prescribed condition number up to 1e-3/eps (geometric / one-small / one-large singular value profiles) and sparse families, both norms (all trans x storage), '
+PROPS['C12'] = dict(gen=gen_c12, relevant=('C12|',), counters=X_COUNTERS + ('gscon_judged', 'info_np1', 'info_np1_nrhs0'), nontrivial=lambda r: bool((r.get('result') or {}).get('rcond_judged')) or bool((r.get('result') or {}).get('gscon_judged')), batch=25, coverage_extra=cov_equed,
+                    rule='expert driver on matrices with prescribed condition number up to 1e-3/eps (geometric / one-small / one-large singular value profiles), a class with condition numbers of 1/eps .. 1e5/eps where info = n+1 has to come back (with and without right-hand sides; counters info_np1, info_np1_nrhs0), and sparse families, both norms (all trans x storage), '
                     'thresholds u in {1,0.5,0.1}, 4 precisions, 1..4 threads; distinct = sha1(case); non-trivial = the rcond bounds were actually judged (kappa*n*u <= 1e-3); '
                     'oracle: explicit extended-precision inverse; 1/kappa <= rcond <= 1/(||A||*||inv(A)e/n||) up to delta = min(0.5, 8 n u kappa growth); info = n+1 iff rcond < eps; '
                     'reciprocal pivot growth recomputed from the returned factors within 8 ulp; both also for calls that re-use the factors (fact = FACTORED, output scalars poisoned before the call)',
-                    floors={'rcond_judged': 400})
+                    floors={'rcond_judged': 400, 'info_np1': 40, 'info_np1_nrhs0': 10})
 
 def gen_c13(ctx):
     rng = ctx.rng
@@ -881,6 +885,8 @@ def gen_c19(ctx):
                 c['trans'] = rng.choice(['N', 'T', 'C']); c['alpha'] = rng.randrange(7); c['beta'] = rng.randrange(7)
                 if rng.random() < 0.5: c['xzero'] = rng.choice([1, 1, 2, 2, 3, 4])
                 if rng.random() < 0.2: c['yzero'] = 1
+                if rng.random() < 0.15: c['beta'] = 0
+                if c['beta'] == 0 and rng.random() < 0.7: c['yunset'] = rng.choice([1, 1, 2, 3, 4])   # beta = 0: y / C 'need not be set on input' (NaN, Inf, huge)
                 if sub == 'gemv':
                     c['incx'] = rng.choice([1, 1, 1, 2, -1, -3]); c['incy'] = rng.choice([1, 1, 1, 2, -1, -3])
                 else:
@@ -909,7 +915,7 @@ def cov_c19(ctx, recs):
 
 PROPS['C19'] = dict(timeout_case=20.0, gen=gen_c19, relevant=('C19|', 'C09|'), counters=('nnz',), batch=40, judge=judge_c19, coverage_extra=cov_c19,
                     nontrivial=lambda r: (r.get('result') or {}).get('nnz', 0) >= 2 and not (r.get('result') or {}).get('nfail'),
-                    rule='direct calls of sp_?gemv (N/T/C, alpha,beta in {0,1,-1,generic}, strides 1,2,-1,-3), sp_?gemm, sp_?trsv for every (uplo,trans) on L/U from real factorizations '
+                    rule='direct calls of sp_?gemv (N/T/C, alpha,beta in {0,1,-1,generic,imaginary}, strides 1,2,-1,-3; with beta = 0 also on a y / C buffer that was never set: NaN, Inf, huge), sp_?gemm, sp_?trsv for every (uplo,trans) on L/U from real factorizations '
                     '(1..4 threads), ?langs (M,1,O,I,F,E), ?CompRow_to_CompCol, ?Copy_CompCol_Matrix, ?Create_CompCol_Permuted on random m x n matrices incl. empty columns; 4 precisions; '
                     'distinct = sha1(case); non-trivial = nnz>=2 and judged; oracle: dense extended-precision definition with the standard bound gamma(k+3)(|alpha||A||x|+|beta||y|), '
                     'residual bound gamma(n+2)|T||x| for the solves, (k+4)u for norms (max-norm of a real matrix exact), bitwise multiset equality for conversions, inputs unchanged')
@@ -994,6 +1000,19 @@ def gen_c11(ctx):
         c['equil'] = 1
         c['rscale'] = rng.choice([0, 8, 20, 30]); c['cscale'] = rng.choice([0, 8, 20, 30])
         out.append(({'variant': 'plain', 'prec': prec}, c))
+    # returns that do not reach the solve: exactly singular matrices without a zero row or column (isolated +-1 blocks, so the
+    # equilibration is applied and stays exact under the power-of-two scaling) and workspace queries; A_out, B_out and the flag
+    # have to agree all the same
+    M2 = 600 if ctx.quick else 8000
+    for i in range(M2):
+        prec = rng.choice(PRECS)
+        if i % 2 == 0:
+            c = sing_case(rng, prec, ctx.quick, 'gssvx', kind='onesblock')
+        else:
+            c = gssvx_case(rng, prec, ctx.quick); c['lwq'] = 1; c.pop('factored', None)
+        c['equil'] = 1; c['trans'] = rng.choice([0, 1, 2])
+        c['rscale'] = rng.choice([0, 8, 20]); c['cscale'] = rng.choice([0, 8, 20])
+        out.append(({'variant': 'plain', 'prec': prec}, c))
     return out
 
 def cov_c11(ctx, recs):
@@ -1003,6 +1022,13 @@ def cov_c11(ctx, recs):
         res = r.get('result') or {}
         if r['case']['cmd'] == 'equil':
             k['%s/info%s' % (r['case']['sub'], '0' if res.get('info', 0) == 0 else '>0')] += 1
+    ns = collections.Counter()
+    for r in recs.values():
+        res = r.get('result') or {}
+        if r['case']['cmd'] == 'gssvx' and res.get('equed', 0) in (1, 2, 3):
+            if res.get('query'): ns['query_with_scaling_applied'] += 1
+            elif 0 < res.get('info', 0) <= res.get('n', 0): ns['singular_with_scaling_applied'] += 1
+    d['returns_without_solve'] = dict(ns)
     d['direct_calls'] = dict(k)
     return d
 
